@@ -63,6 +63,41 @@ fn main() {
             };
             std::process::exit(runner::run_check(c.as_ref(), tier, seed, runs));
         }
+        "selftest" => {
+            // per-run determinism log: one line per (check, run): hash of the generated trace and
+            // the verdict; two invocations must print identical logs
+            let mut runs = 500u64;
+            let mut only: Option<String> = None;
+            let mut i = 2;
+            while i < args.len() {
+                match args[i].as_str() {
+                    "--runs" => {
+                        i += 1;
+                        runs = args.get(i).and_then(|s| s.parse().ok()).unwrap_or(runs);
+                    }
+                    x => only = Some(x.to_string()),
+                }
+                i += 1;
+            }
+            let root = runner::verif_root();
+            for c in checks::all() {
+                if let Some(o) = &only {
+                    if o != c.id() {
+                        continue;
+                    }
+                }
+                let (ctx, _) = runner::make_ctx(&root, c.id(), Tier::Quick).unwrap();
+                for run in 0..runs {
+                    let mut r = rng::Rng::new(rng::run_seed(seed, c.id(), run));
+                    let mut st = runner::Stats::default();
+                    let t = c.generate(&mut r, Tier::Quick, &mut st);
+                    let th = rng::fnv1a(t.to_json().to_string().as_bytes());
+                    let v = c.execute(&t, &mut st, &ctx);
+                    let counters = rng::fnv1a(format!("{:?}", st.0).as_bytes());
+                    println!("{} {} {:016x} {:?} {:016x}", c.id(), run, th, v, counters);
+                }
+            }
+        }
         "replay" => {
             if args.len() < 3 {
                 usage();
